@@ -120,11 +120,13 @@ Section Support.
   Lemma sentence_supported x a : covered s x -> no_definition x ->
     supported_atom I (flat_map (ground_rule U) (compile_sentence s x)) a = adm_sentence s x a.
   Proof.
-    intros Hc Hn. destruct x as [c|? ? ? ?|required whenpart main wh|? ? ?|required neg v sv ov]; try destruct Hn.
+    intros Hc Hn. destruct x as [c|? ? ? ?|required whenpart main wh|l vals y|required neg v sv ov]; try destruct Hn.
     - cbn [covered] in Hc. destruct Hc as (Hds & Hdo & _ & Hne & Hfe). destruct (ch_foreach c) as [e|] eqn:Efe.
       + destruct Hfe as (Hde & Hes & Heo). now apply (each_supported c e).
       + now apply choice_supported.
     - unfold adm_sentence. cbn [base_sentence]. apply only_constraints_support, cons_only_constraints.
+    - destruct y as [?|? ? ? ?|rq wp mn wh|? ? ?|? ? ? ? ?]; try destruct Hn. unfold adm_sentence. cbn [base_sentence].
+      apply only_constraints_support. intros r Hr. destruct (oneof_rules_are_constraints s U l vals rq wp mn wh r Hr) as (b & ->). exact Logic.I.
     - unfold adm_sentence. cbn [base_sentence]. apply only_constraints_support, there_only_constraints.
   Qed.
 
